@@ -33,9 +33,15 @@ def main():
     wt, sid, checks = args[0], args[1], args[2:]
     dst = f"/verif/seeded/{sid}"
     os.makedirs(dst, exist_ok=True)
+    previous = []
+    if os.path.exists(os.path.join(dst, "meta.json")):
+        try:
+            previous = json.load(open(os.path.join(dst, "meta.json"))).get("evaluations", [])
+        except Exception:  # noqa: BLE001
+            previous = []
     for f in ("patch.diff", "demo.py", "meta.json"):
         src = os.path.join(wt, "SEEDED", f)
-        if os.path.exists(src):
+        if os.path.exists(src) and not (f == "meta.json" and previous):
             shutil.copy(src, os.path.join(dst, f))
     meta = {}
     try:
@@ -84,7 +90,7 @@ def main():
         sh("git -C /verif checkout -- evidence")
     ev["checks"] = results
     ev["tier"] = tier
-    meta.setdefault("evaluations", []).append(ev)
+    meta["evaluations"] = previous + meta.get("evaluations", []) + [ev]
     meta["evaluation"] = ev
     json.dump(meta, open(os.path.join(dst, "meta.json"), "w"), indent=1)
     print(json.dumps({"seed": sid, "confirmed": ev["confirmed"], "suite": ev["suite_with_patch"],
